@@ -17,6 +17,16 @@
 (* submitted to the pure checks; votes are collected message by message    *)
 (* (action VoteMsg).                                                       *)
 (*                                                                         *)
+(* The validator set in force is a function of the view (TDPoS term change, *)
+(* XPoA validator update): a certificate is judged by the set in force for  *)
+(* the CERTIFIED view, which need not be the set of the view of the         *)
+(* proposal / block that carries it.  The pure checks above take the set    *)
+(* as an argument; handleReceivedProposal (smr.go:312, operator             *)
+(* ReceiveProposal, action SubmitReceive) and the plugins' CheckMinerMatch  *)
+(* look it up.  For that action the identities 1..n are the validators of   *)
+(* SOME view; vc (certified view) and vp (the carrying proposal's view) are *)
+(* arbitrary non-empty subsets, differing in membership and size.           *)
+(*                                                                         *)
 (* Identities: members of the validator set are 1..n, 0 is an outsider,    *)
 (* -1 (traces only) an unparsable public key.  A signature entry is        *)
 (* [a |-> claimed address, k |-> attached public key, s |-> signature]:    *)
@@ -77,9 +87,14 @@ ASSUME PrintT(<<"KINDTABLE", [j \in 1..NumKinds(10) |-> KindOf(j)]>>)
 -----------------------------------------------------------------------------
 (* The property's vocabulary (independent of the procedures) *)
 Need(m) == m - ((m - 1) \div 3) - 1                         \* n - floor((n-1)/3) - 1
-ValidMember(e, m) == e.a \in Members(m) /\ e.k = e.a /\ e.s = "good"
-ValidSigners(signs, m) == {i \in Members(m) : \E x \in DOMAIN signs : signs[x].a = i /\ ValidMember(signs[x], m)}
-Quorum(signs, m) == Cardinality(ValidSigners(signs, m)) >= Need(m)
+(* S: the validator set in force for the certified view (a set of identities) *)
+ValidMemberS(e, S) == e.a \in S /\ e.k = e.a /\ e.s = "good"
+ValidSignersS(signs, S) == {i \in S : \E x \in DOMAIN signs : signs[x].a = i /\ ValidMemberS(signs[x], S)}
+QuorumS(signs, S) == Cardinality(ValidSignersS(signs, S)) >= Need(Cardinality(S))
+(* ... which is 1..m wherever one fixed set is in force *)
+ValidMember(e, m) == ValidMemberS(e, Members(m))
+ValidSigners(signs, m) == ValidSignersS(signs, Members(m))
+Quorum(signs, m) == QuorumS(signs, Members(m))
 
 -----------------------------------------------------------------------------
 (* The code's procedures *)
@@ -101,12 +116,12 @@ VerifyRes(e) ==
 (* the loop over justifySigns (`if ok, _ := Verify...; !ok`): non-members are skipped, a member entry
    that does not verify rejects the whole certificate, every other member entry is counted *)
 RECURSIVE JustifyLoop(_, _, _, _, _)
-JustifyLoop(signs, m, x, cnt, seen) ==
+JustifyLoop(signs, S, x, cnt, seen) ==          \* S = justifyValidators
   IF x > Len(signs) THEN [ok |-> TRUE, cnt |-> cnt, seen |-> seen]
   ELSE LET v == signs[x] IN
-       IF v.a \notin Members(m) THEN JustifyLoop(signs, m, x + 1, cnt, seen)
+       IF v.a \notin S THEN JustifyLoop(signs, S, x + 1, cnt, seen)
        ELSE IF VerifyRes(v) # "ok" THEN [ok |-> FALSE, cnt |-> cnt, seen |-> seen]
-       ELSE JustifyLoop(signs, m, x + 1, cnt + 1, seen \cup {v.a})
+       ELSE JustifyLoop(signs, S, x + 1, cnt + 1, seen \cup {v.a})
 
 (* frames: the checks of CheckProposal that precede the signature loop
    "std"         parent in the local tree, validators given
@@ -118,17 +133,26 @@ JustifyLoop(signs, m, x, cnt, seen) ==
    "highqc"      the certified id is the node's own HighQC (the root after a start): no local knowledge replaces the
                  signatures, the certificate is judged like any other *)
 Frames == {"std", "lowview", "nilvals", "nilpid", "orphan_near", "orphan_far", "highqc"}
-CheckProposal(frame, m, signs) ==
+CheckProposalS(frame, S, signs) ==
   IF frame = "lowview" THEN [res |-> "reject", why |-> "TooLowProposalView", dev |-> FALSE]
   ELSE IF frame = "nilvals" THEN [res |-> "reject", why |-> "EmptyValidators", dev |-> FALSE]
   ELSE IF frame = "nilpid" THEN [res |-> "reject", why |-> "EmptyParentQC", dev |-> FALSE]
   ELSE IF frame = "orphan_far" THEN [res |-> "reject", why |-> "EmptyParentNode", dev |-> FALSE]
-  ELSE LET r == JustifyLoop(signs, m, 1, 0, {})
+  ELSE LET r == JustifyLoop(signs, S, 1, 0, {})
+           m == Cardinality(S)
            ideal == Cardinality(r.seen)             \* distinct verified members
            validCnt == IF KF_RepeatedSignerCounts THEN r.cnt ELSE ideal
        IN IF ~r.ok THEN [res |-> "reject", why |-> "InvalidVoteSign", dev |-> FALSE]
           ELSE IF ~CalVotesThreshold(validCnt, m) THEN [res |-> "reject", why |-> "NoEnoughVotes", dev |-> FALSE]
           ELSE [res |-> "accept", why |-> "", dev |-> ~CalVotesThreshold(ideal, m)]
+CheckProposal(frame, m, signs) == CheckProposalS(frame, Members(m), signs)
+
+(* smr.go handleReceivedProposal: a received proposal (its parent known locally) is stored and voted for only if its
+   justify passes CheckProposal with the validators the election names for the view the JUSTIFY certifies
+   (s.Election.GetValidators(parentQC.GetProposalView())); vc = that set, vp = the set in force for the view of the
+   proposal itself, which plays no part.  The plugins' CheckMinerMatch do the same for a block: the set of the
+   previous block's height judges the justify, the set of the block's own height names its producer. *)
+ReceiveProposal(vc, vp, signs) == CheckProposalS("std", vc, signs)
 
 (* CheckVote: only the first signature of the vote is examined (`if ok, err := Verify...; !ok {return err}`) *)
 CheckVote(m, signs) ==
@@ -186,6 +210,13 @@ SubmitProposal(frame) ==
   /\ frame \in Frames /\ mode \in {"idle", "assemble"} /\ Same
   /\ Log([op |-> "proposal", n |-> n, frame |-> frame, signs |-> Decode(qc),
           res |-> CheckProposal(frame, n, Decode(qc)).res])
+(* ... or arrives as the justify of a proposal of the next view while the validator set changes from vc to vp *)
+SetSeq(S) == SetToSortSeq(S, <)
+SubmitReceive(vc, vp) ==
+  /\ mode \in {"idle", "assemble"} /\ Same
+  /\ vc # {} /\ vp # {} /\ vc \subseteq Members(n) /\ vp \subseteq Members(n)
+  /\ Log([op |-> "receive", n |-> n, vc |-> SetSeq(vc), vp |-> SetSeq(vp), signs |-> Decode(qc),
+          res |-> ReceiveProposal(vc, vp, Decode(qc)).res])
 SubmitVote ==
   /\ mode \in {"idle", "assemble"} /\ Same
   /\ Log([op |-> "vote", n |-> n, signs |-> Decode(qc), res |-> CheckVote(n, Decode(qc)).res])
@@ -221,6 +252,9 @@ Next ==
      \/ Discard
      \/ \E f \in Frames : SubmitProposal(f)
      \/ SubmitVote
+     \* SubmitReceive(vc, vp), a pure call with (2^n - 1)^2 arguments per certificate, is not explored as a transition (it
+     \* changes nothing but hist): its verdict for every argument is checked in every state by the invariant ReceiveOK;
+     \* Gen_QC draws it.
      \/ \E input \in 0..ThrMax, sum \in 0..ThrMax : Threshold(input, sum)
      \/ StartCollect
      \/ \E signs \in Msgs(n) : VoteMsg(signs)
@@ -239,6 +273,15 @@ Obs == ObsOf(Collector)
 ASSUME ThresholdOK == \A sum \in 1..12, input \in 0..12 : CalVotesThreshold(input, sum) <=> input >= Need(sum)
 (* an accepted certificate carries valid signatures of a quorum of distinct members *)
 ProposalOK == \A f \in Frames : CheckProposal(f, n, Decode(qc)).res = "accept" => Quorum(Decode(qc), n)
+(* a received proposal is accepted only if its justify carries a quorum of the set in force for the CERTIFIED view,
+   whatever set is in force for the proposal's own view *)
+ReceiveOK == mode # "collect" =>        \* (collector states carry no certificate)
+             \A vc \in (SUBSET Members(n)) \ {{}} :
+               LET ok == QuorumS(Decode(qc), vc) IN
+               \* the carrying view's set: the same, everybody, exactly the others (ReceiveProposal does not read it; all
+               \* (2^n - 1) sets would cost a factor 2^n / 3 for nothing)
+               \A vp \in {vc, Members(n)} \cup (IF vc = Members(n) THEN {} ELSE {Members(n) \ vc}) :
+                  ReceiveProposal(vc, vp, Decode(qc)).res = "accept" => ok
 (* an accepted vote is signed by a member, validly, over the voted id *)
 VoteOK == CheckVote(n, Decode(qc)).res = "accept" => ValidMember(Decode(qc)[1], n)
 (* the collector certifies a proposal only when it holds such a quorum *)
